@@ -49,6 +49,9 @@ NAN = float("nan")
 # classes and is inert - a hit of either class is reported as a violation.
 K_OVERFLOW = "id-overflow-int32"
 K_STICKY = "sticky-dimension"
+K_ROWORDER = "element-nodal-row-order"
+K_CONTAINER = "set-container"
+BAD_CONTAINERS = ("set", "frozenset", "dict_keys", "generator")     # refused by 0e66e4b's _check_int32
 
 _MOD = {}
 
@@ -339,6 +342,40 @@ IT_CONTENT = {
 }
 
 
+def make_container(ids, kind):
+    """The `indices` argument of add_node_set / add_element_set: any iterable of ids."""
+    ids = list(ids)
+    if kind == "index":
+        return pd.Index(ids, dtype=np.int64)
+    if kind == "series":
+        return pd.Series(ids, dtype=np.int64, index=range(100, 100 + len(ids)))
+    if kind == "ndarray":
+        return np.asarray(ids, dtype=np.int64)
+    if kind == "int32array":
+        return np.asarray(ids, dtype=np.int32) if all(fits32(i) for i in ids) else np.asarray(ids, dtype=np.int64)
+    if kind == "floatarray":
+        return np.asarray(ids, dtype=np.float64) if all(abs(i) < 2 ** 53 for i in ids) else np.asarray(ids, dtype=np.int64)
+    if kind == "tuple":
+        return tuple(ids)
+    if kind == "set":
+        return set(ids)
+    if kind == "frozenset":
+        return frozenset(ids)
+    if kind == "dict_keys":
+        return {i: None for i in ids}.keys()
+    if kind == "generator":
+        return (i for i in ids)
+    if kind == "range" and ids and ids == list(range(ids[0], ids[0] + len(ids))):
+        return range(ids[0], ids[0] + len(ids))
+    return ids          # "list" (and a "range" that is not one)
+
+
+def container_is_bad(op):
+    """The set call hits the container defect of 0e66e4b / the (0, 0) shaped dataset of an empty list."""
+    c = op.get("container", "index")
+    return c in BAD_CONTAINERS or (not op["ids"] and c in ("list", "tuple", "range"))
+
+
 def apply_export(ex, op, frames):
     k = op["op"]
     if k == "geom":
@@ -350,7 +387,7 @@ def apply_export(ex, op, frames):
     elif k == "set":
         name = op.get("name")
         fn = ex.add_node_set if op["kind"] == 0 else ex.add_element_set
-        fn(op["geom"], pd.Index(op["ids"], dtype=np.int64), frames[op["frame"]], name)
+        fn(op["geom"], make_container(op["ids"], op.get("container", "index")), frames[op["frame"]], name)
     elif k == "other":
         if op["call"] == "it":
             content = {0: {}, 1: IT_CONTENT, 2: {"T": [0, "BAD"]}}[op["content"]]
@@ -491,6 +528,36 @@ def parse_frame(text):
     return cols, rows
 
 
+def per_element_nodes(fr):
+    out = {}
+    for e, n, _ in fr["rows"]:
+        out.setdefault(e, []).append(n)
+    return out
+
+
+def en_valid(vfr, gfr):
+    """The frame of an ELEMENT_NODAL variable fits the geometry: distinct keys, and they are the (element, node) pairs of
+    whole elements of the geometry's frame (any row order)."""
+    keys = [(r[0], r[1]) for r in vfr["rows"]]
+    if len(set(keys)) != len(keys):
+        return False
+    v, g = per_element_nodes(vfr), per_element_nodes(gfr)
+    return all(e in g and sorted(ns) == sorted(g[e]) and len(set(g[e])) == len(g[e]) for e, ns in v.items())
+
+
+def en_aligned(vfr, gfr):
+    """... and every element's rows come in the same order as in the geometry's frame (then the row order is no issue)."""
+    v, g = per_element_nodes(vfr), per_element_nodes(gfr)
+    return all(g.get(e) == ns for e, ns in v.items())
+
+
+def resolved_loc(op):
+    loc = op.get("loc")
+    if loc is None and op["var"] in mods()["table"]:
+        loc = mods()["table"][op["var"]][1].value
+    return loc
+
+
 def op_has_overflow(case, op):
     """The ids this call has to store do not all fit int32."""
     if op["op"] == "set":
@@ -503,6 +570,9 @@ def op_has_overflow(case, op):
 def mechanism_from(case, classes):
     """Index of the first op at which the input mechanism of one of the finding classes `classes` acts, else None:
     id-overflow-int32 - the call has to store an id outside int32;
+    set-container     - add_node_set / add_element_set with a set, frozenset, dict keys view or generator of ids (or an empty list);
+    element-nodal-row-order - add_variable(ELEMENT_NODAL) with a frame whose rows are not, element by element, in the order of
+                        the frame the geometry was exported from;
     sticky-dimension  - add_geometry of a frame whose own dimension is not 3 (i.e. 2, or None = z differs between the
                         rows of a node) after an add_geometry (whatever its outcome) of a frame whose own dimension
                         is not 2 (i.e. 3 or None): `own_dim(...) == None` counts on both sides.
@@ -510,9 +580,17 @@ def mechanism_from(case, classes):
     a frame whose own dimension is not 2.  The two places do not agree on `None`; that only matters while the class is
     open, which it is not.)"""
     seen3 = False
+    geoms = {}
     for i, op in enumerate(case["ops"]):
         if K_OVERFLOW in classes and op_has_overflow(case, op):
             return i
+        if K_CONTAINER in classes and op["op"] == "set" and container_is_bad(op):
+            return i
+        if op["op"] == "geom":
+            geoms.setdefault(op["name"], []).append(op["frame"])
+        if K_ROWORDER in classes and op["op"] == "var" and resolved_loc(op) == 6:
+            if any(not en_aligned(case["frames"][op["frame"]], case["frames"][gi]) for gi in geoms.get(op["geom"], [])):
+                return i
         if op["op"] == "geom":
             d = own_dim(case["frames"][op["frame"]])
             if K_STICKY in classes and seen3 and d != 3:
@@ -653,6 +731,8 @@ class Run:
             why = self.valid_call(op, fr, snap_before)
             if why is not None:
                 klass = K_STICKY if sticky else why[1]
+                if k == "set" and container_is_bad(op):
+                    klass = K_CONTAINER
                 self.fail(f"op {pos}: {why[0]} raised {err_name(exc)}: {str(exc)[:120]}"
                           + (" (an earlier add_geometry had a 3D frame)" if sticky else ""), klass)
             return
@@ -664,8 +744,10 @@ class Run:
                 chk()
                 self.stored.append(chk)
         elif k == "var":
-            if self.geom_frame.get(op["geom"]) == op["frame"] and frame_valid(fr):
-                chk = lambda pre="", o=op, f=fr, p=pos: self.check_variable_roundtrip(o, f, p, pre)
+            gi = self.geom_frame.get(op["geom"])
+            if gi is not None and frame_valid(case["frames"][gi]) and frame_valid(fr) and \
+                    (resolved_loc(op) == 2 or en_valid(fr, case["frames"][gi])):
+                chk = lambda pre="", o=op, f=fr, g=case["frames"][gi], p=pos: self.check_variable_roundtrip(o, f, g, p, pre)
                 chk()
                 self.stored.append(chk)
         elif k == "set":
@@ -707,6 +789,10 @@ class Run:
             ids = [r[1] if loc == 2 else r[0] for r in fr["rows"]]
             if not all(fits32(i) for i in ids):
                 return None
+            if loc == 6:
+                gi = self.geom_frame.get(op["geom"])
+                if gi is None or not en_valid(fr, self.case["frames"][gi]):
+                    return None
             return (f"add_variable {op['var']!r} (location {loc}, columns {list(names)}) with valid arguments", "export-raises")
         if k == "set":
             name = op.get("name")
@@ -867,18 +953,21 @@ class Run:
                                   klass)
                         return
 
-    def check_variable_roundtrip(self, op, fr, pos, pre=""):
+    def check_variable_roundtrip(self, op, vfr, gfr, pos, pre=""):
+        """The variable was exported from `vfr`, the geometry from `gfr` (the same frame, a reordered copy, a frame with
+        other columns, a part of the mesh): every mesh row gets the value `vfr` has for its node (NODE) / for its
+        (element, node) pair (ELEMENT_NODAL) - whatever the row order of `vfr` - and NaN where `vfr` has none."""
         M = mods()
         fail = self.fail
         names = op.get("cols")
         if names is None:
             names = M["table"][op["var"]][0]
-        loc = op.get("loc")
-        if loc is None:
-            loc = M["table"][op["var"]][1].value
-        idx = [fr["cols"].index(c) for c in names]
+        loc = resolved_loc(op)
+        idx = [vfr["cols"].index(c) for c in names]
         kn = self.klass_for(op, "roundtrip-node-variable")
         ke = self.klass_for(op, "roundtrip-element-nodal")
+        if loc != 2 and not en_aligned(vfr, gfr):
+            ke = self.klass_for(op, K_ROWORDER)
         with Importer(self.fn) as im:
             try:
                 got = show_frame(im.make_mesh(op["geom"], op["state"]).join_variable(op["var"], column_names=list(names))
@@ -888,19 +977,35 @@ class Run:
                      kn if loc == 2 else ke)
                 return
         cols, rows = parse_frame(got)
-        exp = expected_rows(fr)
+        exp = expected_rows(gfr)
         if [(e, n) for e, n, _ in rows] != [(r[0], r[1]) for r in exp]:
             fail(f"{pre}op {pos}: rows differ after joining {op['var']!r}", self.klass_for(op, "roundtrip-mesh"))
             return
+        nanrow = ["nan"] * len(idx)
         if loc == 2:
-            self.compare_nodal(fr, list(names), rows, exp, pos, f"nodal variable {op['var']!r}", kn, pre)
-        else:
+            nodes = {r[1] for r in vfr["rows"]}
             for (e, n, cells), r in zip(rows, exp):
-                if cells != [cell(r[2][i]) for i in idx]:
-                    klass = ke if contiguous(fr) else self.klass_for(op, "element-nodal-interleaved")
+                if r[1] not in nodes and cells != nanrow:
+                    fail(f"{pre}op {pos}: nodal variable {op['var']!r}: node {n} is not in the variable's frame but reads {cells}", kn)
+                    return
+            # per node data of vfr, compared at the mesh rows (keyed by node)
+            first = {}
+            for r in vfr["rows"]:
+                first.setdefault(r[1], r)
+            inside = [(row, r) for row, r in zip(rows, exp) if r[1] in nodes]
+            self.compare_nodal(vfr, list(names), [row for row, _ in inside], [first[r[1]] for _, r in inside], pos,
+                               f"nodal variable {op['var']!r}", kn, pre)
+        else:
+            by_key = {(r[0], r[1]): r for r in vfr["rows"]}
+            for (e, n, cells), r in zip(rows, exp):
+                src = by_key.get((e, n))
+                want = nanrow if src is None else [cell(src[2][i]) for i in idx]
+                if cells != want:
+                    klass = ke if (contiguous(vfr) or ke == K_ROWORDER) else self.klass_for(op, "element-nodal-interleaved")
                     fail(f"{pre}op {pos}: element nodal variable {op['var']!r} at element {e} node {n}: read {cells}, "
-                         f"exported {[cell(r[2][i]) for i in idx]}"
-                         + ("" if contiguous(fr) else " (the rows of an element are not contiguous in the frame)"), klass)
+                         f"exported {want}"
+                         + ("" if en_aligned(vfr, gfr) else " (the variable's frame has another row order than the geometry's)"),
+                         klass)
                     return
 
     def check_set(self, op, gfr, pos, pre=""):
@@ -909,6 +1014,8 @@ class Run:
         kind = op["kind"]
         # (a geometry exported from a frame with ids outside int32 is the same finding as the ids themselves)
         bad = K_OVERFLOW if not frame_ids_fit(gfr) else self.klass_for(op, "filter-set")
+        if bad == "filter-set" and container_is_bad(op):
+            bad = K_CONTAINER
         members = set(op["ids"])
         # the set that a look-up by this name must find: the last one stored under the name
         stored = [s for s in self.snap()["geoms"][op["geom"]]["sets"] if s[0] == kind and s[1] == name]
@@ -1094,6 +1201,44 @@ def gen_frame(rng, tier, want=None):
     return fr
 
 
+CONTAINERS = ["index", "index", "list", "tuple", "set", "frozenset", "dict_keys", "generator", "range", "series", "ndarray",
+              "int32array", "floatarray"]
+
+
+def reordered(rng, fr, mode):
+    """A variable frame for the geometry exported from `fr`: the same (element, node) pairs in another row order (or, for the
+    refusals, not quite the same pairs), with other values in the free columns."""
+    rows = [[r[0], r[1], list(r[2])] for r in fr["rows"]]
+    free = [i for i, c in enumerate(fr["cols"]) if c in ("p1", "p2", "S11", "S22", "S33", "S12", "S13", "S23")]
+    for r in rows:
+        for i in free:
+            r[2][i] = dy(rng) + 1000.0
+    if mode == "sorted":
+        rows.sort(key=lambda r: (r[0], r[1]))
+    elif mode == "reversed":
+        rows.reverse()
+    elif mode == "bynode":
+        rows.sort(key=lambda r: (r[1], r[0]))
+    elif mode == "shuffled":
+        rng.shuffle(rows)
+    elif mode == "part":                       # whole elements only, shuffled
+        els = sorted({r[0] for r in rows})
+        keep = set(rng.sample(els, max(1, len(els) // 2)))
+        rows = [r for r in rows if r[0] in keep]
+        rng.shuffle(rows)
+    elif mode == "missing" and len(rows) > 1:
+        rows.pop(rng.randrange(len(rows)))
+        rng.shuffle(rows)
+    elif mode == "extra" and rows:
+        r = rng.choice(rows)
+        rows.append([r[0], max(x[1] for x in rows) + 1 if max(x[1] for x in rows) < INT32_MAX else 5, list(r[2])])
+        rng.shuffle(rows)
+    out = {"cols": list(fr["cols"]), "rows": rows}
+    if fr.get("obj"):
+        out["obj"] = list(fr["obj"])
+    return out
+
+
 def frame_info(fr):
     nodal = [c for c in fr["cols"] if c in ("dx", "dy", "dz", "d1", "d2")]
     free = [c for c in fr["cols"] if c in ("p1", "p2", "S11", "S22", "S33", "S12", "S13", "S23")]
@@ -1153,6 +1298,14 @@ def gen_case(rng, tier):
         frames.append(gen_frame(rng, tier, rng.choice(["badcount", "badcount", "noxy", "objcoord", "empty", "beyond",
                                                        "beyond"])))
         rng.shuffle(frames)
+    # variable frames in another row order than the frame the geometry is exported from
+    variants = {}
+    for fi in range(len(frames)):
+        if frames[fi]["rows"] and not frames[fi].get("f32") and rng.random() < 0.45:
+            mode = rng.choice(["sorted", "sorted", "reversed", "bynode", "shuffled", "shuffled", "part", "missing", "extra"])
+            frames.append(reordered(rng, frames[fi], mode))
+            variants[fi] = len(frames) - 1
+    nbase = len(frames) - len(variants)
     ops = []
     geoms, states, vars_known, sets_known = [], [], [], []
     geom_frame = {}
@@ -1161,7 +1314,7 @@ def gen_case(rng, tier):
         r = rng.random()
         if r < 0.25 or not geoms:
             name = rng.choice(GEOMS) if rng.random() < 0.8 else rng.choice(geoms or GEOMS)
-            fi = rng.randrange(len(frames))
+            fi = rng.randrange(nbase if rng.random() < 0.9 else len(frames))
             ops.append({"op": "geom", "name": name, "frame": fi})
             if name not in geoms:
                 geoms.append(name)             # may have failed; the generator only needs candidates
@@ -1169,6 +1322,8 @@ def gen_case(rng, tier):
         elif r < 0.55:
             g = rng.choice(geoms) if rng.random() < 0.9 else "nogeo"
             fi = geom_frame.get(g, 0) if rng.random() < 0.85 else rng.randrange(len(frames))
+            if fi in variants and rng.random() < 0.5:
+                fi = variants[fi]
             nodal, free = frame_info(frames[fi])
             st = rng.choice(STATES)
             q = rng.random()
@@ -1217,7 +1372,8 @@ def gen_case(rng, tier):
                 name = 7                                                 # not a string
             elif q < 0.22:
                 name = None
-            ops.append({"op": "set", "kind": kind, "geom": g, "ids": ids, "frame": fi, "name": name})
+            ops.append({"op": "set", "kind": kind, "geom": g, "ids": ids, "frame": fi, "name": name,
+                        "container": rng.choice(CONTAINERS)})
             sets_known.append((g, kind, name if isinstance(name, str) else ""))
         elif r < 0.76:
             ops.append({"op": "list", "geom": rng.choice(geoms + ["nogeo"]) if rng.random() < 0.1 else rng.choice(geoms)})
@@ -1294,6 +1450,10 @@ def tiny_cases():
                         z = n * 0.5
                     fr_rows.append([e, n, [n * 0.1, n / 3.0, z, n * 2.0, 100.0 * e + i]])
                 fr = {"cols": ["x", "y", "z", "d1", "p1"], "rows": fr_rows}
+                # the same mesh rows sorted by (element, node) as `DataFrame.sort_index()` leaves them, with other values
+                fr2 = {"cols": ["x", "y", "z", "d1", "p1"],
+                       "rows": sorted(([r[0], r[1], r[2][:4] + [5000.0 + 10.0 * r[0] + r[1]]] for r in fr_rows),
+                                      key=lambda r: (r[0], r[1]))}
                 nodes = sorted({r[1] for r in rows})
                 inj = [["ds", 1 + pi % 3], ["ds", 1 + pi % 2], ["attr", 1], ["ds", 1], ["attr", 1]]
                 if pi % 2:
@@ -1302,15 +1462,18 @@ def tiny_cases():
                        {"op": "var", "state": "s", "geom": "g", "var": "N", "frame": 0, "cols": ["d1"], "loc": 2, "inject": inj[1]},
                        {"op": "var", "state": "s", "geom": "g", "var": "EN", "frame": 0, "cols": ["p1", "d1"], "loc": 6,
                         "inject": inj[2]},
-                       {"op": "set", "kind": 0, "geom": "g", "ids": nodes[::2], "frame": 0, "name": "half", "inject": inj[3]},
+                       {"op": "var", "state": "s", "geom": "g", "var": "EN2", "frame": 1, "cols": ["p1"], "loc": 6},
+                       {"op": "set", "kind": 0, "geom": "g", "ids": nodes[::2], "frame": 0, "name": "half", "inject": inj[3],
+                        "container": CONTAINERS[pi % len(CONTAINERS)]},
                        {"op": "set", "kind": 1, "geom": "g", "ids": [rows_by_el[-1][0][0]], "frame": 0, "name": "last",
-                        "inject": inj[4]},
+                        "inject": inj[4], "container": CONTAINERS[(pi + 5) % len(CONTAINERS)]},
                        {"op": "list", "geom": "g"},
                        {"op": "import", "chains": [
-                           [["mesh", "g", "s"], ["coords"], ["var", "N", None, ["n"]], ["var", "EN", None, ["a", "b"]]],
+                           [["mesh", "g", "s"], ["coords"], ["var", "N", None, ["n"]], ["var", "EN", None, ["a", "b"]],
+                            ["var", "EN2", None, ["c"]]],
                            [["mesh", "g", None], ["fn", "half"], ["coords"]],
                            [["mesh", "g", "s"], ["fe", "last"], ["var", "EN", None, ["a", "b"]]]]}]
-                out.append({"frames": [fr], "ops": ops})
+                out.append({"frames": [fr, fr2], "ops": ops})
     return out
 
 
@@ -1325,6 +1488,12 @@ class C20(Prop):
         "PylifeVerif.C20.node_value_is_own_cells",
         "PylifeVerif.C20.roundtrip_node_variable",
         "PylifeVerif.C20.roundtrip_element_nodal_variable",
+        "PylifeVerif.C20.roundtrip_element_nodal_row_found",
+        "PylifeVerif.C20.roundtrip_element_nodal_variable_same_frame",
+        "PylifeVerif.C20.joinVar_step_element_nodal_any_order",
+        "PylifeVerif.C20.enTarget_any_row_order",
+        "PylifeVerif.C20.addVariable_succeeds_of_target",
+        "PylifeVerif.C20.refused_addVariable_creates_nothing",
         "PylifeVerif.C20.joinCoords_step",
         "PylifeVerif.C20.joinVar_step_node",
         "PylifeVerif.C20.joinVar_step_element_nodal",
@@ -1364,8 +1533,10 @@ class C20(Prop):
     PARALLEL = 8          # impl_lines / oracle are sharded over forked processes by core.pmap
     RULE = ("export ops on an abstract file (geometries: point ids ascending + first non-missing cell per node and column, "
             "elements by id ascending with connectivity in frame order, type from (the frame's own dimension, node count); "
-            "ids outside int32 refused; variables: NODE = first non-missing cell per node, ELEMENT_NODAL = rows grouped by "
-            "element id; sets appended) with the roll-back of the except-branches; import = mesh index from the "
+            "ids outside int32 refused; variables: arguments validated before anything is created, NODE = first non-missing "
+            "cell per node, ELEMENT_NODAL = the frame's rows looked up by the (element, node) pairs of the stored connectivity "
+            "(any row order; a frame that is not made of whole elements of the geometry is refused); sets appended, any "
+            "iterable of ids) with the roll-back of the except-branches; import = mesh index from the "
             "connectivity, coordinates / variables joined by key, set filters; to_frame hands out the mesh and clears it - "
             "the selected geometry and state of the session stay")
     ASSUMPTIONS = [
@@ -1398,7 +1569,8 @@ class C20(Prop):
                       "frames_with_ids_outside_int32": 0, "empty_frames": 0, "object_column_frames": 0,
                       "binary32_frames": 0, "coordinate_cells": 0, "coordinate_cells_not_binary32": 0,
                       "coordinate_cells_nan_or_inf": 0, "thin_or_tiny_3d_frames": 0, "empty_sets": 0,
-                      "max_rows": 0, "injected_trials": {}, "oracle_findings": {},
+                      "max_rows": 0, "injected_trials": {}, "oracle_findings": {}, "set_containers": {},
+                      "element_nodal_frames_in_another_row_order": 0, "element_nodal_frames_not_matching_geometry": 0,
                       "exhaustive_scope_types": "every supported element type alone and every pair of types of one "
                                                 "dimension in one geometry (tiny_cases)"}
         self.exhaustive = False
@@ -1464,6 +1636,17 @@ class C20(Prop):
             st["ops"][op["op"]] = st["ops"].get(op["op"], 0) + 1
             if op["op"] == "set" and not op["ids"]:
                 st["empty_sets"] += 1
+            if op["op"] == "set":
+                c = op.get("container", "index")
+                st["set_containers"][c] = st["set_containers"].get(c, 0) + 1
+            if op["op"] == "var" and resolved_loc(op) == 6:
+                gi = next((o["frame"] for o in case["ops"] if o["op"] == "geom" and o["name"] == op["geom"]), None)
+                if gi is not None:
+                    v, g = case["frames"][op["frame"]], case["frames"][gi]
+                    if not en_valid(v, g):
+                        st["element_nodal_frames_not_matching_geometry"] += 1
+                    elif not en_aligned(v, g):
+                        st["element_nodal_frames_in_another_row_order"] += 1
         for n in res.import_errs:
             st["import_errors"][n] = st["import_errors"].get(n, 0) + 1
         for k, v in res.injected.items():
@@ -1514,7 +1697,7 @@ class C20(Prop):
         # the two mechanism classes were an OPEN known finding again, the segments from the first call on which that defect's
         # input mechanism acts would be the oracle's business (it reports the finding class) and model and code would have to
         # agree only up to that call.  Both classes are fixed: the set below is empty, `stop` is None, every segment is compared.
-        stop = mechanism_from(case, self._open_classes() & {K_OVERFLOW, K_STICKY})
+        stop = mechanism_from(case, self._open_classes() & {K_OVERFLOW, K_STICKY, K_ROWORDER, K_CONTAINER})
         if stop is not None:
             a, b = a[:stop], b[:stop]
         for i, (x, y) in enumerate(zip(a, b)):
